@@ -330,11 +330,165 @@ def cases(tier: str) -> List[Dict[str, Any]]:
                     for how in ("fin", "rst"):
                         for to, ack, sync in ((0.1, False, False), (-1, False, True)) if n > 1 else params[:8:3] + params[8::3]:
                             out.append(dict(tc=tc, kinds=list(seq), timeout=to, ack=ack, sync=sync, close=[how, off]))
+    # the same Client object on a second connection; a type redefined between reads
+    for tc in (False, True):
+        for init in ("none", "subs", "all", "paused"):
+            for how in ("rst", "fin", "disconnect"):
+                out.append(dict(family="reconnect", tc=tc, init=init, how=how, kinds=["reconnect", init, how]))
+        for lookup_first in (False, True):
+            out.append(dict(family="redefine", tc=tc, lookup_first=lookup_first, kinds=["redefine", str(lookup_first)]))
     return out
 
 
+def reconnect_case(case) -> Dict[str, Any]:
+    """the SAME Client object connects again (after a lost connection, or after disconnect()): nothing of the earlier
+    connection's subscription state may filter - or fail to filter - what the new connection delivers"""
+    tc, init, how = case["tc"], case["init"], case["how"]
+    ensure_defs()
+    mmx.fresh_gc()
+    import pyrtma.client as CL
+
+    w = clx.ClientWorld(timecode=tc)
+    probs: List[Dict[str, Any]] = []
+    calls = 0
+    try:
+        with warnings.catch_warnings():
+            warnings.simplefilter("ignore")
+            c = w.new_client(module_id=33, timecode=tc, name="cee")
+            c.connect(mmx.SERVER)
+            w.settle()
+            if init == "subs":
+                c.subscribe([S8, G0])
+            elif init == "all":
+                c.subscribe([P.ALL_MESSAGE_TYPES])
+            elif init == "paused":
+                c.subscribe([S8, Z8])
+                c.pause_subscription([S8])
+            w.settle()
+            if how == "disconnect":
+                c.disconnect()
+            else:
+                for end in (c._sock, c._sock.peer_sock):
+                    end.peer = how
+                    end.err = how == "rst"
+                lost = False
+                for _ in range(12):  # acknowledgements of the subscriptions are still queued in front of the end of stream
+                    try:
+                        c.read_message(timeout=0)
+                    except CL.ConnectionLost:
+                        lost = True
+                        break
+                if not lost:
+                    probs.append({"kind": "loss-not-reported"})
+            w.settle()
+            c.connect(mmx.SERVER)
+            w.settle()
+            if c.subscribed_types or c.paused_subscribed_types or c._sub_all:
+                probs.append({"kind": "subscriptions-survive-reconnect", "subscribed": sorted(c.subscribed_types), "paused": sorted(c.paused_subscribed_types),
+                              "sub_all": c._sub_all})
+            # frames of the formerly subscribed types reach the socket (queued / misdirected): none may be returned
+            c._sock.rx += mk("good", tc, 0) + mk("signal", tc, 1) + mk("paused", tc, 2)
+            for _ in range(4):
+                calls += 1
+                m = c.read_message(timeout=0)
+                if m is not None:
+                    probs.append({"kind": "returned-unsubscribed-type", "after": "reconnect", "msg_type": m.header.msg_type})
+            # an individual subscription on the new connection works (it would be refused if "subscribed to all" survived)
+            try:
+                c.subscribe([U8])
+            except CL.InvalidSubscription:
+                probs.append({"kind": "stale-sub-all-refuses-subscribe"})
+            w.settle()
+            c._sock.rx.clear()
+            c._sock.rx += mk("good", tc, 3) + mk("unsub", tc, 4)
+            got = []
+            for _ in range(3):
+                calls += 1
+                m = c.read_message(timeout=0)
+                if m is not None:
+                    got.append(m.header.msg_type)
+            if got != [U8]:
+                probs.append({"kind": "read-after-reconnect", "expected": [U8], "got": got})
+    except Exception as e:
+        probs.append({"kind": "reconnect-raised", "exc": f"{type(e).__name__}: {str(e)[:120]}"})
+    finally:
+        w.stop()
+    return {"problems": probs, "calls": calls, "sig": ("reconnect", init, how, len(probs))}
+
+
+def redefine_case(case) -> Dict[str, Any]:
+    """a type is redefined (regenerated definitions loaded through @message_def) after frames of it were read: decoding
+    follows the CURRENT local definition"""
+    import pyrtma
+    import pyrtma.client as CL
+    from pyrtma.message_data import MessageData
+    from pyrtma.message_base import MessageMeta
+
+    tc = case["tc"]
+    ensure_defs()
+    mmx.fresh_gc()
+    sp = clx.ScriptedPeer(timecode=tc)
+    c = sp.client
+    probs: List[Dict[str, Any]] = []
+    calls = 0
+    NEWHASH = 0x61616161
+
+    def define(n, h):
+        ns = {"type_id": S8, "type_name": f"VF8_{S8}", "type_hash": h, "type_size": n, "type_source": "vf", "type_def": ""}
+        if n:
+            ns["_fields_"] = [("raw", ctypes.c_ubyte * n)]
+        pyrtma.message_def(MessageMeta(f"MDF_VF8_{S8}", (MessageData,), ns))
+
+    def read(sync):
+        nonlocal calls
+        calls += 1
+        try:
+            m = c.read_message(timeout=0, sync_check=sync)
+            return ("none",) if m is None else ("msg", len(bytes(m.data)))
+        except CL.InvalidMessageDefinition:
+            return ("exc", "InvalidMessageDefinition")
+        except Exception as e:
+            return ("exc", type(e).__name__)
+
+    try:
+        with warnings.catch_warnings():
+            warnings.simplefilter("ignore")
+            c.subscribe([S8])
+            if case["lookup_first"]:
+                sp.feed(mk("good", tc, 0))
+                r = read(False)
+                if r != ("msg", 8):
+                    probs.append({"kind": "redefine-baseline", "got": list(r)})
+            define(16, NEWHASH)
+            kw = dict(src_mod_id=21, send_time=2.0, msg_count=2, dest_mod_id=0)
+            if tc:
+                kw.update(utc_seconds=100, utc_fraction=7)
+            old_frame = P.mkframe(S8, bytes(8), timecode=tc, reserved=HASH[S8], **kw)
+            new_frame = P.mkframe(S8, bytes(range(16)), timecode=tc, reserved=NEWHASH, **kw)
+            stale_ver = P.mkframe(S8, bytes(range(16)), timecode=tc, reserved=HASH[S8], **kw)
+            for label, frame, sync, want in (("old-size", old_frame, False, ("exc", "InvalidMessageDefinition")), ("new-size", new_frame, False, ("msg", 16)),
+                                             ("new-size-sync", new_frame, True, ("msg", 16)), ("new-size-old-hash-sync", stale_ver, True, ("exc", "InvalidMessageDefinition")),
+                                             ("after", new_frame, False, ("msg", 16))):
+                sp.feed(frame)
+                r = read(sync)
+                if r != want:
+                    probs.append({"kind": "stale-definition-used", "frame": label, "expected": list(want), "got": list(r), "looked_up_before": case["lookup_first"]})
+    finally:
+        define(8, HASH[S8])
+        sp.close()
+    return {"problems": probs, "calls": calls, "sig": ("redefine", case["lookup_first"], len(probs))}
+
+
 def run_chunk(cs):
-    return [run_case(c) for c in cs]
+    out = []
+    for c in cs:
+        if c.get("family") == "reconnect":
+            out.append(reconnect_case(c))
+        elif c.get("family") == "redefine":
+            out.append(redefine_case(c))
+        else:
+            out.append(run_case(c))
+    return out
 
 
 def run(tier: str) -> int:
@@ -372,10 +526,14 @@ def run(tier: str) -> int:
     return chk.finish({"evaluations": len(cs), "distinct_nontrivial": len(nontriv), "distinct_outcome_signatures": len(sigs)})
 
 
+def _run_any(case):
+    return run_chunk([case])[0]
+
+
 def replay(case) -> int:
     c = case["case"]
-    r1 = run_case(c)
-    r2 = run_case(c)
+    r1 = _run_any(c)
+    r2 = _run_any(c)
     if str(r1["problems"]) != str(r2["problems"]):
         print("HARNESS-ERROR: non-deterministic replay")
         return 2
